@@ -132,7 +132,7 @@ def lockfile():
     return None
 
 
-def prune_cache(keep=80):
+def prune_cache(keep=400):
     d = os.path.join(WORK, 'cache')
     try:
         ents = sorted((os.path.getmtime(os.path.join(d, e)), e) for e in os.listdir(d))
